@@ -23,6 +23,10 @@ impl TraitHandler for CloneEnumHandler {
 
         let mut bound: WherePredicates = Punctuated::new();
 
+        // if a custom clone method is used, `Clone` is not implemented by copying, so the `Copy` implementation needs its own bounds (every field has to be `Copy`)
+        #[cfg(feature = "Copy")]
+        let mut copy_bound: Option<WherePredicates> = None;
+
         let mut clone_token_stream = proc_macro2::TokenStream::new();
         let mut clone_from_token_stream = proc_macro2::TokenStream::new();
 
@@ -213,6 +217,27 @@ impl TraitHandler for CloneEnumHandler {
                 }
             }
 
+            #[cfg(feature = "Copy")]
+            if has_custom_clone_method && traits.contains(&Trait::Copy) {
+                let field_types: Vec<&Type> = data
+                    .variants
+                    .iter()
+                    .flat_map(|variant| variant.fields.iter().map(|field| &field.ty))
+                    .collect();
+
+                copy_bound = Some(
+                    type_attribute
+                        .bound
+                        .clone()
+                        .into_where_predicates_by_generic_parameters_check_types(
+                            &ast.generics.params,
+                            &syn::parse2(quote!(::core::marker::Copy)).unwrap(),
+                            &field_types,
+                            &[],
+                        ),
+                );
+            }
+
             bound = type_attribute.bound.into_where_predicates_by_generic_parameters_check_types(
                 &ast.generics.params,
                 &syn::parse2(if contains_copy {
@@ -261,10 +286,26 @@ impl TraitHandler for CloneEnumHandler {
 
         #[cfg(feature = "Copy")]
         if traits.contains(&Trait::Copy) {
-            token_stream.extend(quote! {
-                impl #impl_generics ::core::marker::Copy for #ident #ty_generics #where_clause {
+            if let Some(copy_bound) = copy_bound {
+                let mut generics = ast.generics.clone();
+                let where_clause = generics.make_where_clause();
+
+                for where_predicate in copy_bound {
+                    where_clause.predicates.push(where_predicate);
                 }
-            });
+
+                let (impl_generics, ty_generics, where_clause) = generics.split_for_impl();
+
+                token_stream.extend(quote! {
+                    impl #impl_generics ::core::marker::Copy for #ident #ty_generics #where_clause {
+                    }
+                });
+            } else {
+                token_stream.extend(quote! {
+                    impl #impl_generics ::core::marker::Copy for #ident #ty_generics #where_clause {
+                    }
+                });
+            }
         }
 
         Ok(())
